@@ -79,14 +79,15 @@ func runC05(c *Ctx) {
 			if _, isMap := f.Type().Underlying().(*types.Map); !isMap {
 				continue
 			}
-			key := "router." + o.typ + "." + f.Name()
+			fname := ir.FieldName(obj.Type(), i)
+			key := "router." + o.typ + "." + fname
 			nTables++
 			if why, ok := exempt[key]; ok {
-				c.R.OK(r3, "router."+o.typ, "table "+f.Name()+" exempt: "+why, c.P.Pos(f.Pos()), "")
+				c.R.OK(r3, "router."+o.typ, "table "+fname+" exempt: "+why, c.P.Pos(f.Pos()), "")
 				continue
 			}
-			c.R.Check(deleted[f.Name()], r3, "router."+o.typ, "table "+f.Name()+" has a delete reachable from "+o.root, c.P.Pos(f.Pos()),
-				fmt.Sprintf("map field %s.%s (%s) is never deleted from in any function reachable from %s: entries for departed sessions would stay forever", o.typ, f.Name(), ir.TypeStr(f.Type()), o.root))
+			c.R.Check(deleted[fname], r3, "router."+o.typ, "table "+fname+" has a delete reachable from "+o.root, c.P.Pos(f.Pos()),
+				fmt.Sprintf("map field %s.%s (%s) is never deleted from in any function reachable from %s: entries for departed sessions would stay forever", o.typ, fname, ir.TypeStr(f.Type()), o.root))
 		}
 		// nested per-session sets: subscription.subscribers, registration.callees are edited
 		if o.typ == "broker" {
